@@ -1,217 +1,112 @@
-import PocketModel.Ledger.Genesis
-import Proofs.Ledger.AppsIndexOps
+import Proofs.Ledger.Bank
 /-!
-# Lemmas about genesis export / init (C43)
+# Genesis establishes `supply = Σ balances` (C17's genesis hypothesis, discharged for the module
+genesis code as it is)
 -/
-namespace Gen
-open Apps (Addr)
+namespace Ledger
+open Accounts
+namespace Bank
 
-/-! ## InitChain on an export: the validation of the auth module -/
+theorem genesisAuth_good (accts : Accounts) (supply : Option Int)
+    (hn : ∀ p ∈ accts, 0 ≤ p.2.bal) (hs : supply = none ∨ supply = some accts.total) :
+    Good (genesisAuth accts supply) := by
+  refine ⟨?_, hn⟩
+  rcases hs with h | h <;> simp [genesisAuth, SupplyInv, h]
 
-theorem validateAuth_panics {g : G} (h : ∃ a ∈ g.accounts, a.hasPub = false) : validateAuth g = .panic := by
-  unfold validateAuth
-  obtain ⟨a, ha, hp⟩ := h
-  have : g.accounts.any (fun a => !a.hasPub) = true := List.any_eq_true.mpr ⟨a, ha, by simp [hp]⟩
-  simp [this]
+/-- Funding an *empty* pool keeps the invariant. -/
+theorem genesisFundPool_good (mt : ModTable) (b : Bank) (pool : String) (staked : Int) (hg : Good b)
+    (hst : 0 ≤ staked) (hz : ∀ mi, mt.find pool = some mi → b.balOf mi.addr = 0) :
+    Good (genesisFundPool mt b pool staked) := by
+  have g1 := getModuleAccount_good mt b pool hg
+  have hb := getModuleAccount_balOf mt b pool
+  unfold genesisFundPool
+  rcases hgm : getModuleAccount mt b pool with ⟨b1, r⟩
+  rw [hgm] at g1 hb
+  cases r with
+  | missing => exact g1
+  | broken => exact g1
+  | ok mi =>
+    have hf := getModuleAccount_ok_find' mt b pool b1 mi hgm
+    have h0 : b1.balOf mi.addr = 0 := by rw [hb]; exact hz mi hf
+    simp only [h0, if_true]
+    refine ⟨?_, ?_⟩
+    · simp only [SupplyInv, total_set]
+      have := g1.1
+      simp only [SupplyInv, Bank.balOf] at this h0
+      rw [h0]; simp; omega
+    · intro p hp
+      rcases mem_set _ _ _ _ hp with h | h
+      · exact g1.2 p h
+      · subst h; simpa using hst
+where
+  getModuleAccount_ok_find' (mt : ModTable) (b : Bank) (m : String) (b1 : Bank) (mi : ModInfo)
+      (h : getModuleAccount mt b m = (b1, .ok mi)) : mt.find m = some mi := by
+    unfold getModuleAccount at h
+    cases hf : mt.find m with
+    | none => simp [hf] at h
+    | some mi' =>
+      simp only [hf] at h
+      cases ha : b.accts.get mi'.addr with
+      | none => simp [ha] at h; rw [h.2]
+      | some acc =>
+        simp only [ha] at h
+        split at h
+        · simp at h; rw [h.2]
+        · simp at h
 
-theorem initChain_auth_panic {g : G} (h : ∃ a ∈ g.accounts, a.hasPub = false) :
-    initChain g = .validateFailed "auth" .panic := by
-  unfold initChain
-  rw [validateAuth_panics h]
+/-- Funding a pool does not touch other balances. -/
+theorem genesisFundPool_balOf_other (mt : ModTable) (b : Bank) (pool : String) (staked : Int) (c : Addr)
+    (hc : ∀ mi, mt.find pool = some mi → mi.addr ≠ c) :
+    (genesisFundPool mt b pool staked).balOf c = b.balOf c := by
+  have hb := getModuleAccount_balOf mt b pool c
+  unfold genesisFundPool
+  rcases hgm : getModuleAccount mt b pool with ⟨b1, r⟩
+  rw [hgm] at hb
+  cases r with
+  | missing => exact hb
+  | broken => exact hb
+  | ok mi =>
+    have hf := genesisFundPool_good.getModuleAccount_ok_find' mt b pool b1 mi hgm
+    have hne := hc mi hf
+    simp only
+    split
+    · simp only [Bank.balOf, balOf_set, hne, if_false]; exact hb
+    · exact hb
 
-theorem mem_export_accounts {l : L} {a : Acct} (ha : a ∈ l.accounts) (hc : a.upokt ≠ 0 ∨ a.other = true) :
-    a ∈ (exportGenesis l).accounts := by
-  unfold exportGenesis
-  simp only [List.mem_filter]
-  refine ⟨ha, ?_⟩
-  rcases hc with h | h
-  · simp [h]
-  · simp [h]
+/-- **Genesis theorem.**  Non-negative genesis accounts, a genesis supply that is empty or equals
+their sum, no genesis account at a module address, two distinct pools: after the module genesis
+sequence of app.go, `supply = Σ balances`. -/
+theorem genesis_good (mt : ModTable) (accts : Accounts) (supply : Option Int) (nodePool appPool : String)
+    (stakedNodes stakedApps daoTokens : Int)
+    (hn : ∀ p ∈ accts, 0 ≤ p.2.bal) (hs : supply = none ∨ supply = some accts.total)
+    (hsn : 0 ≤ stakedNodes) (hsa : 0 ≤ stakedApps)
+    (hfree : ∀ m mi, mt.find m = some mi → accts.get mi.addr = none)
+    (hdist : ∀ m1 m2, mt.find nodePool = some m1 → mt.find appPool = some m2 → m1.addr ≠ m2.addr) :
+    Good (genesis mt accts supply nodePool appPool stakedNodes stakedApps daoTokens) := by
+  unfold genesis genesisDAO
+  apply mintCoins_good
+  have g0 := genesisAuth_good accts supply hn hs
+  have z0 : ∀ m mi, mt.find m = some mi → (genesisAuth accts supply).balOf mi.addr = 0 := by
+    intro m mi hf
+    simp [genesisAuth, Bank.balOf, Accounts.balOf, hfree m mi hf]
+  have g1 := genesisFundPool_good mt _ nodePool stakedNodes g0 hsn (fun mi hf => z0 nodePool mi hf)
+  apply genesisFundPool_good mt _ appPool stakedApps g1 hsa
+  intro mi hf
+  rw [genesisFundPool_balOf_other]
+  · exact z0 appPool mi hf
+  · intro m1 h1; exact hdist m1 mi h1 hf
 
-/-! ## auth -/
+/-- The other branch of the pool genesis — a genesis document that already carries the pool's coins —
+counts them twice: the invariant does not survive it.  (Not reachable from a JSON genesis:
+`auth.ValidateGenesis` dereferences the public key of every genesis account, and a module account
+has none.) -/
+theorem genesis_provided_pool_double_counts :
+    ∃ (mt : ModTable) (b : Bank), Good b ∧ ¬ SupplyInv (genesisFundPool mt b "pool" 5) := by
+  refine ⟨[⟨"pool", [1], true, true⟩], ⟨[([1], ⟨5, some "pool"⟩)], 5⟩, ?_, ?_⟩
+  · constructor
+    · decide
+    · intro p hp; simp at hp; subst hp; decide
+  · decide
 
-theorem initAuth_accounts (g : G) (l : L) : (initAuth g l).accounts = g.accounts := rfl
-
-theorem filter_idem {α} (p : α → Bool) (xs : List α) : (xs.filter p).filter p = xs.filter p := by
-  simp [List.filter_filter]
-
-theorem accounts_roundtrip (l : L) : viewAccounts (initAuth (exportGenesis l) emptyL) = viewAccounts l := by
-  unfold viewAccounts
-  rw [initAuth_accounts]
-  unfold exportGenesis
-  exact filter_idem _ _
-
-theorem initAuth_supply (g : G) (l : L) (h : g.supply ≠ 0) : (initAuth g l).supply = g.supply := by
-  unfold initAuth; simp [h]
-
-/-! ## pos -/
-
-theorem initPos_some {g : G} {l l' : L} (h : initPos g l = some l') :
-    l'.nodes = g.nodes.map legacyNode ∧ l'.supply = l.supply + sumStakedNodes g.nodes
-    ∧ l'.nodeIdx = nodeIndexes g.nodes
-    ∧ (∀ n ∈ g.nodes, n.status ≠ Apps.stUnstaked)
-    ∧ (moduleBal l.accounts poolName = 0 ∨ moduleBal l.accounts poolName = sumStakedNodes g.nodes)
-    ∧ l'.apps = l.apps ∧ l'.claims = l.claims
-    ∧ (moduleBal l.accounts poolName ≠ 0 → l'.accounts = l.accounts) := by
-  unfold initPos at h
-  split at h
-  · simp at h
-  · rename_i hu
-    dsimp only at h
-    split at h
-    · simp at h
-    · rename_i hp
-      cases h
-      refine ⟨rfl, rfl, rfl, ?_, ?_, rfl, rfl, ?_⟩
-      · intro n hn hs
-        apply hu
-        exact List.any_eq_true.mpr ⟨n, hn, by simp [hs]⟩
-      · by_cases h0 : moduleBal l.accounts poolName = 0
-        · exact Or.inl h0
-        · right
-          by_cases h1 : moduleBal l.accounts poolName = sumStakedNodes g.nodes
-          · exact h1
-          · exact absurd ⟨h0, h1⟩ hp
-      · intro h0; simp [h0]
-
-theorem map_legacy_id (ns : List Node) (h : ∀ n ∈ ns, n.output = "-" ∧ n.delegators = "-") : ns.map legacyNode = ns := by
-  induction ns with
-  | nil => rfl
-  | cons n ns ih =>
-    simp only [List.map_cons]
-    have hn := h n List.mem_cons_self
-    have : legacyNode n = n := by
-      unfold legacyNode
-      cases n; simp_all
-    rw [this, ih (fun m hm => h m (List.mem_cons_of_mem _ hm))]
-
-/-! ## application -/
-
-def keptApps (g : G) : List (Addr × Apps.App) :=
-  g.apps.filter (fun e => e.2.status ≠ Apps.stUnstaked && e.2.status ≠ Apps.stUnstaking)
-
-def recomputed (g : G) (l : L) : List (Addr × Apps.App) :=
-  (keptApps g).map (fun e => (e.1, { e.2 with maxRelays := Apps.calcRelays g.appParams (moduleBal l.accounts appPoolName) (moduleBal l.accounts poolName) l.supply e.2.tokens }))
-
-theorem initApps_some {g : G} {l l' : L} (h : initApps g l = some l') :
-    l'.apps = recomputed g l ∧ l'.supply = l.supply + sumStakedApps (recomputed g l)
-    ∧ l'.appIdx = ((recomputed g l).filter (fun e => e.2.status = Apps.stStaked && !e.2.jailed)).map (fun e => ((Apps.power e.2.tokens, e.1), e.1))
-    ∧ l'.appQueue = []
-    ∧ (moduleBal l.accounts appPoolName = 0 ∨ moduleBal l.accounts appPoolName = sumStakedApps (recomputed g l))
-    ∧ l'.nodes = l.nodes ∧ l'.claims = l.claims
-    ∧ (moduleBal l.accounts appPoolName ≠ 0 → l'.accounts = l.accounts) := by
-  unfold initApps at h
-  dsimp only at h
-  split at h
-  · simp at h
-  · rename_i hp
-    cases h
-    refine ⟨rfl, rfl, rfl, rfl, ?_, rfl, rfl, ?_⟩
-    · by_cases h0 : moduleBal l.accounts appPoolName = 0
-      · exact Or.inl h0
-      · right
-        by_cases h1 : moduleBal l.accounts appPoolName = sumStakedApps (recomputed g l)
-        · exact h1
-        · exact absurd ⟨h0, h1⟩ hp
-    · intro h0; simp [h0]
-
-/-- When every exported application is staked and its stored allowance is what `InitGenesis`
-recomputes, the records come back unchanged. -/
-theorem recomputed_id (g : G) (l : L)
-    (hst : ∀ e ∈ g.apps, e.2.status = Apps.stStaked)
-    (hmr : ∀ e ∈ g.apps, e.2.maxRelays = Apps.calcRelays g.appParams (moduleBal l.accounts appPoolName) (moduleBal l.accounts poolName) l.supply e.2.tokens) :
-    recomputed g l = g.apps := by
-  unfold recomputed keptApps
-  have hk : g.apps.filter (fun e => e.2.status ≠ Apps.stUnstaked && e.2.status ≠ Apps.stUnstaking) = g.apps := by
-    apply List.filter_eq_self.mpr
-    intro e he
-    rw [hst e he]; decide
-  rw [hk]
-  have : ∀ (xs : List (Addr × Apps.App)), (∀ e ∈ xs, e ∈ g.apps) →
-      xs.map (fun e => (e.1, { e.2 with maxRelays := Apps.calcRelays g.appParams (moduleBal l.accounts appPoolName) (moduleBal l.accounts poolName) l.supply e.2.tokens })) = xs := by
-    intro xs hx
-    induction xs with
-    | nil => rfl
-    | cons e xs ih =>
-      simp only [List.map_cons]
-      rw [ih (fun x hx' => hx x (List.mem_cons_of_mem _ hx'))]
-      have := hmr e (hx e List.mem_cons_self)
-      obtain ⟨a, app⟩ := e
-      simp only at this
-      rw [← this]
-  exact this g.apps (fun e he => he)
-
-/-! ## pocketcore, gov -/
-
-theorem initPocket_claims (g : G) (l : L) (h : ∀ c ∈ g.claims, c.expiration ≠ 0) : (initPocket g l).claims = g.claims := by
-  unfold initPocket
-  simp only
-  apply List.filter_eq_self.mpr
-  intro c hc; simp [h c hc]
-
-theorem initGov_some {g : G} {l l' : L} (h : initGov g l = some l') :
-    l'.supply = l.supply + g.daoTokens ∧ l'.nodes = l.nodes ∧ l'.apps = l.apps ∧ l'.claims = l.claims
-    ∧ l'.accounts = setModuleBal l.accounts daoName (moduleBal l.accounts daoName + g.daoTokens) := by
-  unfold initGov at h
-  dsimp only at h
-  split at h
-  · cases h; exact ⟨rfl, rfl, rfl, rfl, rfl⟩
-  · simp at h
-
-/-! ## the staked index `InitGenesis` rebuilds -/
-
-/-- index entries written for a list of application records -/
-def appIdxOf (recs : List (Addr × Apps.App)) : List ((Int × Addr) × Addr) :=
-  (recs.filter (fun e => e.2.status = Apps.stStaked && !e.2.jailed)).map (fun e => ((Apps.power e.2.tokens, e.1), e.1))
-
-theorem appIdxOf_exact (recs : List (Addr × Apps.App)) (hn : Apps.NodupKeys recs) (p : Int) (a : Addr) :
-    Apps.get (appIdxOf recs) (p, a) = Apps.specOf (Apps.get recs a) p a := by
-  induction recs with
-  | nil => rfl
-  | cons e rest ih =>
-    obtain ⟨k, app⟩ := e
-    unfold Apps.NodupKeys at hn
-    simp only [List.map_cons, List.nodup_cons] at hn
-    have ih' := ih hn.2
-    have hrest : k = a → Apps.get rest a = none := by
-      intro e; subst e
-      exact Apps.get_none_of_not_mem_keys hn.1
-    rw [Apps.get_cons]
-    by_cases hP : (app.status = Apps.stStaked && !app.jailed) = true
-    · have : appIdxOf ((k, app) :: rest) = ((Apps.power app.tokens, k), k) :: appIdxOf rest := by
-        unfold appIdxOf; simp [hP]
-      rw [this, Apps.get_cons]
-      simp only [Bool.and_eq_true, decide_eq_true_eq, Bool.not_eq_true'] at hP
-      by_cases hk : k = a
-      · subst hk
-        simp only [if_true, Apps.specOf, hP.1, hP.2, true_and]
-        by_cases hp : Apps.power app.tokens = p
-        · simp [hp]
-        · have : ¬ ((Apps.power app.tokens, k) = (p, k)) := by intro e; exact hp (by injection e)
-          simp only [this, if_false, hp]
-          rw [ih', hrest rfl]; rfl
-      · have : ¬ ((Apps.power app.tokens, k) = (p, a)) := by intro e; exact hk (by injection e)
-        simp only [this, if_false, hk]
-        exact ih'
-    · have : appIdxOf ((k, app) :: rest) = appIdxOf rest := by
-        unfold appIdxOf; simp [hP]
-      rw [this, ih']
-      by_cases hk : k = a
-      · subst hk
-        simp only [if_true, hrest rfl, Apps.specOf]
-        have : ¬ (app.status = Apps.stStaked ∧ app.jailed = false ∧ Apps.power app.tokens = p) := by
-          intro ⟨x, y, _⟩; apply hP; simp [x, y]
-        simp [this]
-      · simp [hk]
-
-theorem nodup_map_snd_update (recs : List (Addr × Apps.App)) (f : Addr × Apps.App → Apps.App) (h : Apps.NodupKeys recs) :
-    Apps.NodupKeys (recs.map (fun e => (e.1, f e))) := by
-  unfold Apps.NodupKeys at *
-  simpa [List.map_map, Function.comp_def] using h
-
-theorem nodup_filter (recs : List (Addr × Apps.App)) (p : Addr × Apps.App → Bool) (h : Apps.NodupKeys recs) :
-    Apps.NodupKeys (recs.filter p) := by
-  unfold Apps.NodupKeys at *
-  exact List.Nodup.sublist (List.Sublist.map _ List.filter_sublist) h
-
-end Gen
+end Bank
+end Ledger
